@@ -148,6 +148,10 @@ class Parameter(NamedItem):
         if not pop_names:
             pop_names = self.ts.keys()
 
+        if len(tvec) == 0:
+            # No time points were requested (e.g. a parameter scenario that starts after the end of the simulation) so there is nothing to do
+            return
+
         if sc.isstring(method):
             if method == "smoothinterp":
                 # Generating function for smooth-interp interpolator
